@@ -1,6 +1,7 @@
 package main
 
 import (
+	"regexp"
 	"fmt"
 	"go/ast"
 	"go/token"
@@ -210,7 +211,7 @@ func runC10(c *Ctx) {
 						whyA = "fresh branch node"
 					case L["!"+V+".(shortNode)#1"]:
 						whyA = "type test excluded *shortNode"
-					case L["phi:pos == 16"] || L["16 == phi:pos"]:
+					case posTok(K) != "" && L[posTok(K)+" == 16"]:
 						whyA = "value slot of a branch node"
 					case strings.HasSuffix(V, ".(shortNode)#0.Val"):
 						whyA = "Val of an existing short node (inductive)"
@@ -230,9 +231,9 @@ func runC10(c *Ctx) {
 					switch {
 					case K == "node#0.(shortNode)#0.Key":
 						whyB = "key of the existing node"
-					case strings.HasPrefix(K, "trie.concat(node#0.(shortNode)#0.Key, ") || strings.HasPrefix(K, "append([phi:pos], "):
+					case strings.HasPrefix(K, "trie.concat(node#0.(shortNode)#0.Key, ") || mustRe(`^append\(\[` + PH + `\], `).MatchString(K):
 						whyB = "merge"
-					case K == "[phi:pos]":
+					case posTok(K) != "":
 						whyB = "one nibble"
 					case strings.HasPrefix(K, "[]byte#1[:") && L[strings.TrimSuffix(strings.TrimPrefix(K, "[]byte#1[:"), "]")+" != 0"]:
 						whyB = "common prefix, non-empty"
@@ -264,7 +265,12 @@ func runC10(c *Ctx) {
 					c.Ob("C10-R3", "Trie."+name+" returns a bare branch node only when the common prefix is empty", c.Position(rs.Ret.Pos()), ok, strings.Join(guardLits(rs.State), "; "))
 				case name == "delete" && strings.HasSuffix(r, ".copy()"):
 					n++
-					ok := L["phi:pos < 0"] || L["-1 != phi:pos"] && !L["phi:pos >= 0"]
+					// the child-counting variable is negative: -1 is excluded by construction (a branch has children), so
+					// "< 0" or "!= -1 after a second child was seen" both mean at least two children remain
+					_, neg := hasLit(rs.State, mustRe(`^`+PH+` < 0$`))
+					_, two := hasLit(rs.State, mustRe(`^-1 != `+PH+`$`))
+					_, nonneg := hasLit(rs.State, mustRe(`^`+PH+` >= 0$`))
+					ok := neg || two && !nonneg
 					c.Ob("C10-R3", "Trie.delete keeps a branch node only if at least two children remain", c.Position(rs.Ret.Pos()), ok, strings.Join(guardLits(rs.State), "; "))
 				}
 			}
@@ -325,7 +331,7 @@ func runC10(c *Ctx) {
 		for _, cs := range callSites(hc, `^hasher\.hash$`) {
 			arg := fh.tr.term(nil, cs.Common().Args[1], 0)
 			if strings.Contains(arg, ".Children[") {
-				ok, w := allHave(fh.At(cs), mustRe(`^phi:i(~\d+)? < 16$`))
+				ok, w := allHave(fh.At(cs), mustRe(`^` + PH + ` < 16$`))
 				c.Ob("C10-R4", "hashChildren hashes only the 16 branch children (index < 16), never the value slot", c.Position(cs.Pos()), ok, w)
 			}
 		}
@@ -342,7 +348,13 @@ func runC10(c *Ctx) {
 			}
 		}
 		c.Ob("C10-R4", "hashChildren carries the value slot (Children[16]) over unchanged", c.FnPos(hc), okSlot, "")
-		init, step, okl := phiInitStep(c, hc, "i")
+		var childIdx *ssa.Phi
+		for _, cs := range callSites(hc, `^hasher\.hash$`) {
+			if p := indexPhiOf(cs.Common().Args[1]); p != nil {
+				childIdx = p
+			}
+		}
+		init, step, okl := phiInitStepOf(c, hc, childIdx)
 		c.Ob("C10-R4", "hashChildren walks children 0..15", c.FnPos(hc), okl && init == "0" && strings.HasSuffix(step, "+ 1)"), init+" "+step)
 		// widths
 		fnT := c.Type("trie:fullNode").Underlying().(*types.Struct)
@@ -479,13 +491,19 @@ func runC10(c *Ctx) {
 		st := f.LoopBackStates(`^append$`)
 		okA := len(st) > 0
 		d := ""
+		tested := mustRe(`^(` + PH + `)\.\((short|full)Node\)#1$`)
 		for _, s := range st {
-			_, short := hasLit(s, mustRe(`^phi:tn(~\d+)?\.\(shortNode\)#1$`))
-			_, full := hasLit(s, mustRe(`^phi:tn(~\d+)?\.\(fullNode\)#1$`))
-			if !short && !full {
+			cur, kind := "", ""
+			for l := range s.lits {
+				if m := tested.FindStringSubmatch(l); m != nil {
+					cur, kind = m[1], m[3]
+				}
+			}
+			if cur == "" {
 				continue
 			}
-			if _, app := hasLit(s, mustRe(`^called:append\(phi:nodes(~\d+)?, \[phi:tn(~\d+)?\.\((short|full)Node\)#0\]\)$`)); !app {
+			// the node that was type-tested in this iteration is the one appended to the proof list
+			if _, app := hasLit(s, mustRe(`^called:append\(`+PH+`, \[`+regexp.QuoteMeta(cur)+`\.\(`+kind+`Node\)#0\]\)$`)); !app {
 				okA = false
 				d = "an iteration over a short/full node continues without recording the node: " + strings.Join(guardLits(s), "; ")
 			}
@@ -495,8 +513,8 @@ func runC10(c *Ctx) {
 		mism := false
 		for _, cs := range callSites(pv, `^append$`) {
 			for _, s := range f.At(cs) {
-				if _, short := hasLit(s, mustRe(`^phi:tn(~\d+)?\.\(shortNode\)#1$`)); short {
-					if _, lt := hasLit(s, mustRe(`^len\(phi:key(~\d+)?\) < len\(`)); lt {
+				if _, short := hasLit(s, mustRe(`^`+PH+`\.\(shortNode\)#1$`)); short {
+					if _, lt := hasLit(s, mustRe(`^len\(`+PH+`\) < len\(`+PH+`\.\(shortNode\)#0\.Key\)$`)); lt {
 						mism = true
 					}
 				}
@@ -506,7 +524,14 @@ func runC10(c *Ctx) {
 		for _, cs := range callSites(pv, `^Putter\.Put$`) {
 			a := cs.Common().Args
 			k, v := f.tr.term(nil, a[0], 0), f.tr.term(nil, a[1], 0)
-			okk := strings.HasPrefix(v, "rlp.EncodeToBytes(") && (strings.HasPrefix(k, "phi:hash") || strings.Contains(k, "Keccak256") || strings.Contains(k, ".(hashNode)"))
+			okk := strings.HasPrefix(v, "rlp.EncodeToBytes(")
+			for _, l := range phiLeaves(stripConvAll(a[0])) {
+				lt := f.tr.term(nil, l, 0)
+				if !strings.Contains(lt, "Keccak256") && !strings.Contains(lt, ".(hashNode)") {
+					okk = false
+					v += " | key leaf: " + lt
+				}
+			}
 			c.Ob("C10-R7", "Prove stores each element under the hash of its encoding", c.Position(cs.Pos()), okk, "Put("+k+", "+v+")")
 		}
 		// the key, when not the stored hashNode, is Keccak256(enc)
@@ -680,4 +705,12 @@ func usesFieldOf(v, x ssa.Value, name string, depth int) bool {
 		return usesFieldOf(y.X, x, name, depth+1)
 	}
 	return false
+}
+
+// posTok: K is a one-element key [phi] built from the single remaining child's index; returns the phi token.
+func posTok(K string) string {
+	if m := mustRe(`^\[(` + PH + `)\]$`).FindStringSubmatch(K); m != nil {
+		return m[1]
+	}
+	return ""
 }
